@@ -311,6 +311,18 @@ def oracle(R, t, p, kind, ctx):
                 if ok2:
                     g = [int(x) for x in np.asarray(v).tolist()]
                     R.check(g == want_counts and all(float(x) == int(x) for x in flt(v)), "sholl:get", lambda: f"{ctx}: get({nm} {radii}) = {g} want {want_counts}", f"sholl:get:{nm}")
+            # the requested radii in other orders, with repeats and with radii beyond the tree in front: one count per request, in request order
+            m = len(radii)
+            orders = {"descending": list(range(m - 1, -1, -1)), "outermost-first": [m - 1] + list(range(m - 1)),
+                      "interleaved": [i for pair in zip(range(m - 1, -1, -1), range(m)) for i in pair][:m] if m > 1 else [0],
+                      "repeated": [i for i in range(m) for _ in (0, 1)]}
+            for onm, perm in orders.items():
+                req = [radii[i] for i in perm]
+                ok2, v = R.impl("Sholl.get", sh.get, list(req))
+                if ok2:
+                    g = [int(x) for x in np.asarray(v).tolist()]
+                    R.check(g == [want_counts[i] for i in perm], "sholl:get", lambda: f"{ctx}: get({req}) = {g} want {[want_counts[i] for i in perm]}",
+                            f"sholl:get:order:{onm}")
             sholl_obs = tuple(want_counts)
             if kind == "lat":
                 # A node exactly on the sphere (lattice: integer radial distances are exact in float32 and float64).  The definition
@@ -367,6 +379,11 @@ def oracle(R, t, p, kind, ctx):
                 if ok2:
                     g = flt(v)
                     R.check(g == [float(c) for c in want_counts], "front:sholl", lambda: f"{ctx}: get('sholl', steps={radii}) = {g} want {want_counts}")
+                rev = list(reversed(radii))
+                ok2, v = R.impl("front.get(sholl,steps=radii reversed)", fe.get, "sholl", steps=rev)
+                if ok2:
+                    R.check(flt(v) == [float(c) for c in reversed(want_counts)], "front:sholl",
+                            lambda: f"{ctx}: get('sholl', steps={rev}) = {flt(v)} want {list(reversed(want_counts))}", "front:sholl:descending")
                 ok2, v = R.impl("front.get((sholl,{steps}))", fe.get, ("sholl", {"steps": list(radii)}))
                 if ok2:
                     R.check(flt(v) == [float(c) for c in want_counts], "front:sholl", lambda: f"{ctx}: get(('sholl', {{steps}})) = {flt(v)} want {want_counts}", "front:sholl:tuple")
